@@ -149,6 +149,8 @@ fn powif_pdnum(a: f64, b: &NInt) -> NNum {
 fn pow_big_ints(a: &NInt, b: &NInt) -> NNum {
     match a.pow_maybe_recip(b) {
         (false, r) => NNum::Int(r),
+        // like 1 / 0
+        (true, r) if r.is_zero() => NNum::Float(f64::INFINITY),
         (true, r) => NNum::from(BigRational::from(r.into_bigint()).recip()),
     }
 }
